@@ -140,8 +140,8 @@ def apply_real(obj, op, listcls=list):
                 obj.difference_update(other)
             else:
                 res = {"union": obj.union, "inter": obj.intersection, "diff": obj.difference}[name](other)
-                return _raw(res), fl(list(res)), mop
-            return _raw(obj), fl(list(obj)), mop
+                return _raw(res), fl([x for x in res]), mop
+            return _raw(obj), fl([x for x in obj]), mop
         if name == "add":
             obj.add(op[1])
         elif name == "discard":
@@ -152,10 +152,10 @@ def apply_real(obj, op, listcls=list):
             obj.clear()
         elif name == "invert":
             res = obj.invert(op[1])
-            return _raw(res), fl(list(res)), mop
+            return _raw(res), fl([x for x in res]), mop
         elif name == "copy":
             res = obj.copy()
-            out = (_raw(res), fl(list(res)), mop)
+            out = (_raw(res), fl([x for x in res]), mop)
             res.add(3)          # a copy must be independent of the original
             res.discard(0)
             if hasattr(res, "clear"):
@@ -165,7 +165,7 @@ def apply_real(obj, op, listcls=list):
             v = fb(op[1] in obj)
             return v, v, mop
         elif name == "iter":
-            v = fl(list(obj))
+            v = fl([x for x in obj])
             return v, v, mop
         elif name == "len":
             v = str(len(obj))
@@ -187,7 +187,7 @@ def apply_real(obj, op, listcls=list):
             return v, v, mop
         else:
             raise AssertionError(name)
-        return _raw(obj), fl(list(obj)), mop
+        return _raw(obj), fl([x for x in obj]), mop
     except Exception as e:  # noqa
         x = _exc(e)
         return x, x, mop
@@ -426,17 +426,31 @@ def gen_cases(ctx, n):
         elif r < 0.92:
             ik = rng.choice(("bits", "sorted"))
             limit = rng.choice((0, 1, 8, 9, U, U + 1))
-            l = sorted(set(x for x in pick_list(rng, max(1, limit)) if x < limit))
+            # a small share of programs leaves the documented domain (ids >= limit): model <-> code only
+            outside = rng.random() < 0.1
+            span = limit + 10 if outside else limit
+            l = sorted(set(x for x in pick_list(rng, max(1, span)) if x < span))
             ops = []
             for _ in range(nops):
-                name = rng.choice(("add", "discard", "contains", "contains", "iter", "len", "first", "last"))
+                name = rng.choice(("add", "discard", "contains", "contains", "iter", "len", "first", "last",
+                                   "add", "discard", "contains", "iter", "len", "first", "last",
+                                   "update", "dupd", "iupd", "before", "after", "copy", "union", "inter", "diff", "invert"))
                 if name in ("add", "discard", "contains"):
-                    if limit == 0:
+                    if span == 0:
                         continue
-                    ops.append((name, min(limit - 1, pick_val(rng, limit))))
+                    ops.append((name, min(span - 1, pick_val(rng, span))))
+                elif name in ("update", "dupd", "iupd", "union", "inter", "diff"):
+                    if span == 0:
+                        continue
+                    tag, ol = pick_other(rng, span)
+                    ops.append((name, (tag, [min(span - 1, x) for x in ol])))
+                elif name in ("before", "after"):
+                    ops.append((name, rng.randrange(-1, limit + 2)))
+                elif name == "invert":
+                    ops.append((name, rng.randrange(limit + 2)))
                 else:
                     ops.append((name,))
-            cases.append(dict(kind="rev", init=((ik, l), limit), ops=ops))
+            cases.append(dict(kind="rev", init=((ik, l), limit), ops=ops, e2e=not outside))
         else:
             parts, off = [], 0
             for _ in range(rng.choice((1, 2, 3, 4))):
@@ -446,8 +460,18 @@ def gen_cases(ctx, n):
                 off += gap
             ops = []
             for _ in range(nops):
-                name = rng.choice(("contains", "contains", "contains", "iter", "len"))
-                ops.append((name, rng.randrange(off + 3)) if name == "contains" else (name,))
+                name = rng.choice(("contains", "contains", "contains", "iter", "len") * 3 +
+                                  ("first", "last", "before", "after", "copy", "union", "inter", "diff", "invert"))
+                if name == "contains":
+                    ops.append((name, rng.randrange(off + 3)))
+                elif name in ("before", "after"):
+                    ops.append((name, rng.randrange(-1, off + 2)))
+                elif name in ("union", "inter", "diff"):
+                    ops.append((name, pick_other(rng, off + 3)))
+                elif name == "invert":
+                    ops.append((name, rng.randrange(off + 3)))
+                else:
+                    ops.append((name,))
             cases.append(dict(kind="multi", init=parts, ops=ops))
     return cases
 
@@ -481,10 +505,14 @@ def check_cases(ctx, cases, parallel=False):
             if raw != m:
                 ctx.divergence("idsets.%s.%s" % (CLS[kind], METH.get(op[0], op[0])),
                                {"case": case, "op": op}, m, raw)
-            if setlv != s:
+            if setlv != s and case.get("e2e", True):
                 ctx.violation(classify(case, op, s, setlv), {"case": case, "op": op}, s, setlv,
                               "%s.%s disagrees with the set operation" % (CLS[kind], METH.get(op[0], op[0])))
-                break  # implementation and specification are in different states from here on
+                if setlv != "err-notimpl":
+                    break  # implementation and specification are in different states from here on
+            elif setlv != s:
+                # ids >= limit: outside the documented domain, model <-> code only (rev_*_out_of_range)
+                ctx.stat("idset-outside-domain:%s.%s" % (kind, op[0]))
             if op[0] in ("add", "discard", "update", "iupd", "dupd", "invupd") and prev is not None and s != prev:
                 changed = True
             if op[0] in ("add", "discard", "update", "iupd", "dupd", "invupd", "clear"):
